@@ -1,11 +1,68 @@
 SPEC = {
     "property": "C17",
-    "rule": "placeholder",
-    "assumptions": [],
+    "rule": "random histories on <= 9 vertex handles: an initial complex (a random 1-skeleton built with add_edge_without_blockers plus "
+            "0-6 valid blockers added with add_blocker, or the constructor from a simplex list / make_complex_from_top_faces on random "
+            "top faces), then 4-24 (config mixed) or 40-90 (config long) operations among add_vertex, add_edge, add_edge_without_blockers, "
+            "add_simplex (a blocker, a superset of a blocker, or a random absent simplex with missing faces/edges), remove_star of a "
+            "vertex / edge / simplex of dimension >= 2 (all overloads; half of them aimed inside a blocker of dimension >= 2 more), "
+            "contract_edge (both overloads; edges inside a blocker, next to a blocker, or anywhere), add_blocker on a simplex, copy "
+            "round trip. After EVERY step: contains() of all 2^N-1 vertex subsets against a bitmask model of the abstract complex; "
+            "blocker_range / num_blockers / contains_blocker / blocker_range(v) against the minimal non-faces of dimension >= 2 of the "
+            "model; vertex, edge and simplex ranges and counts, degrees, num_connected_components; star_simplex_range, coboundary_range "
+            "and link (vertices, membership of every subset, blockers) of random simplices. link_condition() is compared with the "
+            "definition Lk(ab)=Lk(a)/\\Lk(b) on the model, and a contraction under the link condition must keep the Betti numbers over "
+            "Z_2 and Z_3 and the Euler characteristic of the simplex set enumerated from contains() (oracle/zp_reduce.h). "
+            "non-trivial = history (distinct by hash) that reached a state with >= 1 blocker and applied add_simplex, an add_edge closing "
+            "triangles, or a remove_star / contract_edge on a state with blockers",
+    "assumptions": [
+        "operations respect the documented preconditions by construction: remove_star / contract_edge only on simplices / edges of the complex, "
+        "add_simplex only on absent simplices of dimension >= 2 whose vertices are present, add_blocker only on a simplex of the complex that "
+        "is not a face of an existing blocker",
+        "remove_edge / remove_vertex / remove_blockers / keep_only_vertices (which do not maintain the blocker set) and popable-blocker "
+        "removal are not part of the histories",
+        "the bitmask model in harness/c17_skeleton_blocker/c17_skeleton_blocker.cpp and oracle/zp_reduce.h are the trusted oracles",
+        "after the known over-deletion of remove_star(vertex|edge) inside a blocker (signature *,inside_blocker,lost_exactly_blocker_residue_star) "
+        "the model is reloaded from the implementation's contains() answers and the history continues; if the implementation's own state is then "
+        "inconsistent (e.g. an edge stored as a blocker) the history is abandoned and counted (resync.abandoned*)",
+        "leak detection is off (orchestrator default); Skeleton_blocker_link_complex::compute_link_blockers leaks the Simplex it allocates "
+        "when the blocker is already present",
+    ],
     "units": [
         {"name": "skbl", "src": ["c17_skeleton_blocker.cpp"], "variant": "asan",
-         "configs": {"mixed": {"quick": 3000, "thorough": 300000}, "long": {"quick": 300, "thorough": 20000}}, "chunk": 25},
+         "configs": {"mixed": {"quick": 3000, "thorough": 300000}, "long": {"quick": 300, "thorough": 10000}}, "chunk": 25},
+        {"name": "skbl_g", "src": ["c17_skeleton_blocker.cpp"], "variant": "gasan", "tiers": ["thorough"],
+         "configs": {"mixed": {"thorough": 30000}}, "chunk": 25},
     ],
-    "floors": {"quick": {}, "thorough": {}},
-    "manifest": {"text": "placeholder", "note": "", "technique": ""},
+    "floors": {
+        "quick": {"op.remove_star.inside_blocker": 600, "op.remove_star.vertex.inside_blocker": 400, "op.remove_star.edge.inside_blocker": 150,
+                  "op.remove_star.simplex.facet_of_blocker": 80, "op.remove_star.with_cofaces": 2500,
+                  "op.contract_edge.link_condition_ok": 1500, "op.contract_edge.link_condition_violated": 1000,
+                  "op.contract_edge.link_condition_ok.blockers_at_endpoints": 150, "cmp.homotopy_invariants": 1500,
+                  "op.add_simplex.boundary_present": 800, "op.add_simplex.edges_missing": 1200, "op.add_simplex.faces_missing": 100,
+                  "op.add_edge.closing_triangles": 600, "op.add_edge_without_blockers.closing_triangles": 600,
+                  "init.from_top_faces": 300, "init.from_simplex_list": 300,
+                  "state.with_blockers": 7000, "cmp.link_blockers": 30000, "steps": 17000, "_distinct_nontrivial": 800},
+        "thorough": {"op.remove_star.inside_blocker": 60000, "op.contract_edge.link_condition_ok": 150000,
+                     "op.contract_edge.link_condition_violated": 100000, "op.contract_edge.link_condition_ok.blockers_at_endpoints": 15000,
+                     "op.add_simplex.boundary_present": 80000, "op.add_simplex.faces_missing": 10000,
+                     "state.with_blockers": 600000, "steps": 1300000, "_distinct_nontrivial": 80000},
+    },
+    "exhaustive": {"quick": False, "thorough": False},
+    "exhaustive_note": "queries are exhaustive per step (every non-empty subset of the <= 9 vertex handles is passed to contains() and "
+                       "contains_blocker() after every operation); histories and initial complexes are sampled",
+    "manifest": {
+        "text": "Runtime monitor: random edit histories (vertex / edge / simplex additions, star removals of vertices, edges and higher "
+                "simplices, edge contractions with and without the link condition, blocker additions, copies) drive Skeleton_blocker_complex "
+                "under ASan+UBSan; after every operation contains() of every vertex subset is compared with an independent bitmask model of "
+                "the abstract complex (union with faces / deletion of exactly the star / image under vertex identification), the blocker set "
+                "with the model's minimal non-faces, and counts, ranges, connected components, links, stars and coboundaries with the model; "
+                "contractions under the link condition must preserve Betti numbers (Z_2, Z_3) and Euler characteristic computed by an "
+                "independent reduction. Held on what was observed, not a proof. Known finding: remove_star of a vertex or edge lying in a "
+                "blocker of dimension >= 2 more also deletes the star of (blocker minus removed simplex); an existing unit test encodes it.",
+        "note": "trusted: bitmask model in the harness, oracle/zp_reduce.h, libstdc++/boost; <= 9 vertex handles per history; preconditions "
+                "respected by construction; remove_edge/remove_vertex/popable-blocker operations not exercised; after the known star-removal "
+                "over-deletion the model is resynchronised from contains() (or the history abandoned when the library state is inconsistent)",
+        "technique": "runtime monitoring: randomized operation histories + reference-model oracle swept exhaustively over all vertex subsets "
+                     "after every step, homotopy invariants by independent Z_p reduction, under AddressSanitizer/UBSan",
+    },
 }
